@@ -388,6 +388,7 @@ def correspondence(ctx):
     t0 = time.time()
     res.merge(_kernel_traces(ctx))
     res.stats["kernel_trace_seconds"] = round(time.time() - t0, 1)
+    _FOUND["tie"] += len(res.disagreements)
     return res
 
 
@@ -584,6 +585,13 @@ def _kernel_traces(ctx):
     dp1 = api.function_space(grid, "DP", 1, scatter=False, segments=[1])
     rwg = api.function_space(grid, "RWG", 0, scatter=False)
     sncz = api.function_space(grid, "SNC", 0, scatter=False, support_elements=sub)
+    for sp in (p1z, p1, dp1, rwg, sncz):
+        # the undecorated kernels index arrays without bounds checks: only run them on sane element lists
+        srt = np.asarray(sp.get_elements_by_color()[0]).astype(np.int64).tolist()
+        if sorted(srt) != np.flatnonzero(sp.support).tolist():
+            res.disagree("get_elements_by_color is not a permutation of the support elements; kernel traces skipped",
+                         space=sp.identifier, impl=srt[:12])
+            return res
     par = copy.deepcopy(api.GLOBAL_PARAMETERS)
     par.quadrature.regular = 1
     par.quadrature.singular = 1
@@ -775,12 +783,14 @@ def oracle(ctx, deep=False):
     res.stats["artificial_dof_owned_failures"] = owned_fail
     res.stats["oracle_spaces"] = len(spaces)
     res.merge(_recorded_oracle(ctx, spaces, deep))
-    res.merge(_thread_matrix(ctx, deep))
     _FOUND["n"] += len(res.counterexamples)
+    tm = _thread_matrix(ctx, deep)
+    _FOUND["n"] += len(tm.counterexamples)
+    res.merge(tm)
     return res
 
 
-_FOUND = {"n": 0}
+_FOUND = {"n": 0, "tie": 0}
 
 
 def search(ctx, broken):
@@ -867,6 +877,7 @@ class _Matrix:
         self.pending = [(t, r) for r in range(self.repeats) for t in self.threads]
         self.running = []
         self.results = {}
+        self.failed = []
         self.maxpar = 4
         self.t0 = time.time()
         env = dict(os.environ)
@@ -896,7 +907,8 @@ class _Matrix:
                 raise RuntimeError(f"thread-matrix worker NUMBA_NUM_THREADS={t} timed out")
             line = next((l for l in so.splitlines() if l.startswith("C16WORKER ")), None)
             if p.returncode != 0 or line is None:
-                raise RuntimeError(f"thread-matrix worker NUMBA_NUM_THREADS={t} failed rc={p.returncode}: {se[-1500:]}")
+                self.failed.append(f"NUMBA_NUM_THREADS={t} rc={p.returncode}: {se[-600:]}")
+                continue
             self.results[(t, r)] = json.loads(line[len("C16WORKER "):])
         return self.results
 
@@ -916,8 +928,17 @@ def _thread_matrix(ctx, deep=False):
     mx = _matrix(ctx, deep)
     results = mx.collect()
     threads, repeats, rounds, ncube = mx.threads, mx.repeats, mx.rounds, mx.ncube
+    if mx.failed:
+        # a crashed worker is an infrastructure error unless this run has already shown the colouring / launch loop
+        # to be broken (then the crash is a consequence and the concrete counterexamples are reported instead)
+        if not (_FOUND["n"] or _FOUND["tie"]):
+            raise RuntimeError("thread-matrix worker failed: " + " | ".join(mx.failed)[:2000])
+        res.notes.append("thread-matrix workers crashed: " + " | ".join(mx.failed)[:600])
+        threads = sorted({t for t, _ in results})
+        if not results:
+            return res
     res.stats["thread_matrix_seconds"] = round(time.time() - mx.t0, 1)
-    ref_key = (threads[0], 0)
+    ref_key = sorted(results)[0]
     ref = results[ref_key]["rounds"][0]
     info = results[ref_key]
     res.stats["thread_matrix"] = dict(threads=threads, repeats=repeats, rounds_per_process=rounds,
